@@ -779,6 +779,31 @@ def run_engine(seed, tier):
                 trace=-1, step=0, msg='free-running race (real threads, not deterministically replayable): ' + f))
     res.update(ntraces=len(traces), ncorpus=ncorpus, key=key, seed=seed, tier=tier,
                timing=dict(gen_s=round(t1 - t0, 1), model_s=round(t2 - t1, 1), analyze_s=round(time.time() - t2, 1)))
+    # ---- search for a concrete failing input: model and implementation differ, but no monitor names a trace on
+    # which a property fails. Look for one in a wider set of schedules (larger random batches with other seeds, the
+    # smallest bounded-exhaustive scenario the quick tier leaves out), judged by the monitors on the implementation alone.
+    if tier != 'thorough' and any(res['props'][p]['mismatches'] for p in PROPS) \
+            and not any(res['props'][p]['monitor_fails'] for p in PROPS):
+        t3 = time.time()
+        extra = []
+        try:
+            for bi, (profile, n, ml) in enumerate([('core', 500, 60), ('resize', 500, 60), ('close', 400, 60),
+                                                   ('mixed', 400, 60), ('order', 150, 60)]):
+                extra += gen_traces(seed * 1000 + 910 + bi, profile, n, ml)
+            extra += gen_traces_exh(4)
+        except Exception as ex:      # the changed code may kill the harness: what was generated so far is used
+            log('search for a failing input stopped: %s' % str(ex)[-200:])
+        found = 0
+        base = len(traces)
+        for j, t in enumerate(extra):
+            fails = monitor_trace(t, [mobs.parse_obs(o) for o in t['obs']])
+            for p, (stp, msg) in fails.items():
+                if p in res['props'] and len(res['props'][p]['monitor_fails']) < 5:
+                    res['props'][p]['monitor_fails'].append(dict(trace=base + j, step=stp, msg=msg))
+                    found += 1
+        traces = traces + extra
+        res['search'] = dict(reason='correspondence divergence without a monitor failure', traces=len(extra),
+                             monitor_failures_found=found, wall_s=round(time.time() - t3, 1))
     # keep the traces needed for replays and samples
     keep = set()
     for p in PROPS:
